@@ -90,6 +90,11 @@ theorem sites_justified : sitesJ.all (justBacked Lemmas.Purity.witnessCfgs) = tr
 
 theorem stores_listed (c : Cfg) : storesListed c = true := Lemmas.Purity.stores_listed c
 
+/-- what the per-window functions receive, as written in the source: a bare name (the non-window branches: the
+    caller's array itself) or `x[index variable]` (fancy / boolean indexing: a copy) — never a basic slice; and the
+    ISIMIP window function, which writes into its arguments, only ever receives copies (complete finite table) -/
+theorem callArgs_classified : callArgsJ.all callArgOk = true ∧ isimipWindowArgsFresh = true := by decide +kernel
+
 /-- the trusted classification, spelled out -/
 theorem trusted_alias_classification :
     [NpOp.name, .basicSlice, .fancyIndex, .boolIndex, .sort, .where_, .arith, .copy, .astype, .zerosLike, .emptyLike,
